@@ -61,6 +61,14 @@ func Tier() string {
 	return t
 }
 
+// Budget returns q or t (by tier) unless VERIF_BUDGET (seconds) overrides it.
+func Budget(q, t time.Duration) time.Duration {
+	if v, err := strconv.Atoi(os.Getenv("VERIF_BUDGET")); err == nil && v > 0 {
+		return time.Duration(v) * time.Second
+	}
+	return Pick(q, t)
+}
+
 func Thorough() bool { return Tier() == "thorough" }
 
 // Pick returns q in the quick tier and t in the thorough tier.
